@@ -692,6 +692,68 @@ func ruleLookupOrder(w *World, r *Report, e *Engine) {
 		// found edge returns the own value / own scope
 	}
 	r.floor("C01.lookup-order", "ascents to the outer scope", n, 2)
+	// looking a name up changes no scope
+	r.rule("C01.lookup-pure", "looking a name up (Get, GetNT, Find, FindNT and whatever they call in package env) writes no scope: no store to a field of an Env and no write into a scope's table, so a binding found through an enclosing scope is found there again, with its current value, on the next lookup (a copy kept in the inner scope would shadow a later def)")
+	np := 0
+	seen := map[*ssa.Function]bool{}
+	var work []*ssa.Function
+	for _, name := range []string{"(*Env).Get", "(*Env).GetNT", "(*Env).Find", "(*Env).FindNT"} {
+		if fn := w.Fn("env", name); fn != nil {
+			work = append(work, fn)
+		} else {
+			r.undecided("C01.lookup-pure", nil, name, token.NoPos, "method no longer resolves")
+		}
+	}
+	isEnvPtr := func(t types.Type) bool {
+		if p, ok := t.Underlying().(*types.Pointer); ok {
+			if nt, ok := p.Elem().(*types.Named); ok {
+				return nt.Obj().Name() == "Env" && nt.Obj().Pkg() != nil && nt.Obj().Pkg().Path() == modPath+"/env"
+			}
+		}
+		return false
+	}
+	for len(work) > 0 {
+		fn := work[len(work)-1]
+		work = work[:len(work)-1]
+		if seen[fn] || len(fn.Blocks) == 0 {
+			continue
+		}
+		seen[fn] = true
+		for _, b := range fn.Blocks {
+			for _, in := range b.Instrs {
+				switch x := in.(type) {
+				case ssa.CallInstruction:
+					if sc := x.Common().StaticCallee(); sc != nil && fnPkgPath(sc) == modPath+"/env" {
+						work = append(work, sc)
+					}
+					if bi, ok := x.Common().Value.(*ssa.Builtin); ok && bi.Name() == "delete" {
+						if ld, ok := x.Common().Args[0].(*ssa.UnOp); ok {
+							if fa, ok := ld.X.(*ssa.FieldAddr); ok && isEnvPtr(fa.X.Type()) {
+								np++
+								r.bad("C01.lookup-pure", fn, "delete from a scope's table during a lookup", in.Pos(), "a lookup removes a binding: the next lookup of that name gives a different answer")
+							}
+						}
+					}
+				case *ssa.MapUpdate:
+					if ld, ok := x.Map.(*ssa.UnOp); ok {
+						if fa, ok := ld.X.(*ssa.FieldAddr); ok && isEnvPtr(fa.X.Type()) {
+							np++
+							r.bad("C01.lookup-pure", fn, "write into a scope's table during a lookup", x.Pos(), "a lookup binds a name in the scope it started from: the copy shadows the enclosing binding, so a later def of that name in the enclosing scope is not seen by closures over this scope (innermost binding wins)")
+						}
+					}
+				case *ssa.Store:
+					if fa, ok := x.Addr.(*ssa.FieldAddr); ok && isEnvPtr(fa.X.Type()) {
+						if _, fresh := fa.X.(*ssa.Alloc); !fresh {
+							np++
+							r.bad("C01.lookup-pure", fn, "store to a field of a scope during a lookup", x.Pos(), "a lookup rewrites the scope (its table or its link to the enclosing scope)")
+						}
+					}
+				}
+			}
+		}
+	}
+	r.add("C01.lookup-pure", nil, "functions reachable from the lookup entry points in package env", token.NoPos, "ok", fmt.Sprintf("%d functions examined, %d writes found", len(seen), np))
+	r.floor("C01.lookup-pure", "functions reachable from the lookup entry points", len(seen), 4)
 }
 
 // ruleOrder: evaluation loops of eval_ast
